@@ -572,7 +572,7 @@ def gql_description(d, text):
 
 
 def render_sdl_rich(d, desc, *, deprecations=True, directives=True, descriptions=True, extend=True, empty_descriptions_ok=False,
-                    printed_target=True):
+                    printed_target=True, schema_block_p=0.3):
     """SDL with descriptions, deprecations, custom directives, specifiedBy, schema description, extend type."""
     out = []
 
@@ -597,7 +597,7 @@ def render_sdl_rich(d, desc, *, deprecations=True, directives=True, descriptions
 
     custom_root = desc.query != "Query" or (desc.mutation and desc.mutation != "Mutation") or (
         desc.subscription and desc.subscription != "Subscription")
-    if custom_root or (descriptions and d.bool(0.3)):
+    if custom_root or (descriptions and d.bool(schema_block_p)):
         roots = [f"query: {desc.query}"]
         if desc.mutation:
             roots.append(f"mutation: {desc.mutation}")
@@ -607,7 +607,13 @@ def render_sdl_rich(d, desc, *, deprecations=True, directives=True, descriptions
         if descriptions and d.bool(0.5):
             sd = gql_description(d, d.choice(["schema description", "multi\nline schema"])) + "\n"
             d.tag("sdl.schema_description")
-        out.append(sd + "schema { " + " ".join(roots) + " }")
+        if extend and len(roots) >= 2 and d.bool(0.5):
+            # root operation types added by a schema extension (modular SDL layouts)
+            out.append(sd + "schema { " + roots[0] + " }")
+            out.append("extend schema { " + " ".join(roots[1:]) + " }")
+            d.tag("sdl.extend_schema")
+        else:
+            out.append(sd + "schema { " + " ".join(roots) + " }")
     if directives:
         locs_t = ["FIELD_DEFINITION", "OBJECT", "INTERFACE", "UNION", "ENUM", "ENUM_VALUE", "INPUT_OBJECT",
                   "INPUT_FIELD_DEFINITION", "ARGUMENT_DEFINITION", "SCALAR", "SCHEMA"]
